@@ -120,6 +120,8 @@ pub struct Recorder {
 
 pub struct ConnCtx {
     id: u64,
+    /// path id by (local address | remote address), learnt from the recovery metrics events
+    paths: std::collections::HashMap<String, u64>,
 }
 
 macro_rules! ev {
@@ -133,7 +135,7 @@ impl event::Subscriber for Recorder {
 
     fn create_connection_context(&mut self, meta: &events::ConnectionMeta, _info: &events::ConnectionInfo) -> ConnCtx {
         emit(json!({"ev": "conn_new", "ep": self.ep, "conn": meta.id}));
-        ConnCtx { id: meta.id }
+        ConnCtx { id: meta.id, paths: Default::default() }
     }
 
     fn on_transport_parameters_received(&mut self, c: &mut ConnCtx, _m: &events::ConnectionMeta, e: &events::TransportParametersReceived) {
@@ -162,9 +164,12 @@ impl event::Subscriber for Recorder {
         ev!(self, c, "packet_received", "sp": sp, "pn": pn);
     }
 
+    // NOTE packet_lost.path carries the addresses of the path the packet was SENT on but the id of the path the loss
+    // was detected on (recovery/manager.rs path_event!(path, current_path_id)); "spath" is the id of the path with those addresses
     fn on_packet_lost(&mut self, c: &mut ConnCtx, _m: &events::ConnectionMeta, e: &events::PacketLost) {
         let (sp, pn) = header(&e.packet_header);
-        ev!(self, c, "packet_lost", "sp": sp, "pn": pn, "bytes": e.bytes_lost, "mtu_probe": e.is_mtu_probe, "path": e.path.id);
+        ev!(self, c, "packet_lost", "sp": sp, "pn": pn, "bytes": e.bytes_lost, "mtu_probe": e.is_mtu_probe, "path": e.path.id,
+            "spath": c.paths.get(&pkey(&e.path)).copied().unwrap_or(e.path.id));
     }
 
     fn on_ack_range_received(&mut self, c: &mut ConnCtx, _m: &events::ConnectionMeta, e: &events::AckRangeReceived) {
@@ -173,6 +178,7 @@ impl event::Subscriber for Recorder {
     }
 
     fn on_recovery_metrics(&mut self, c: &mut ConnCtx, _m: &events::ConnectionMeta, e: &events::RecoveryMetrics) {
+        c.paths.insert(pkey(&e.path), e.path.id);
         ev!(self, c, "metrics", "path": e.path.id, "min_rtt": us(e.min_rtt), "srtt": us(e.smoothed_rtt), "latest": us(e.latest_rtt),
             "rttvar": us(e.rtt_variance), "mad": us(e.max_ack_delay), "pto_count": e.pto_count, "cwnd": e.congestion_window,
             "bif": e.bytes_in_flight, "limited": e.congestion_limited);
@@ -266,4 +272,8 @@ pub fn error_json(e: &s2n_quic::connection::Error) -> Value {
         E::Unspecified { .. } => json!({"kind": "unspecified"}),
         _ => json!({"kind": "other", "dbg": format!("{e:?}")}),
     }
+}
+
+fn pkey(p: &events::Path) -> String {
+    format!("{:?}|{:?}", p.local_addr, p.remote_addr).replace(['"', '\\'], "")
 }
